@@ -11,6 +11,7 @@ import (
 	"time"
 
 	sdk "github.com/cosmos/cosmos-sdk/types"
+	"github.com/cosmos/cosmos-sdk/types/query"
 
 	ophosttypes "github.com/initia-labs/OPinit/x/ophost/types"
 )
@@ -218,6 +219,16 @@ func (e *L1Env) L1Obs(tr *L1Track, r ExecResult) Ov {
 			bals = append(bals, ozB(e.BK.GetBalance(ctx, e.AddrOf(a), d).Amount.BigInt()))
 		}
 	}
+	e.bridgesList = nil
+	if all, err := e.Q.Bridges(ctx, &ophosttypes.QueryBridgesRequest{Pagination: &query.PageRequest{Limit: 100000}}); err != nil {
+		e.queryDiff("Query/Bridges fails: %v", err)
+	} else {
+		e.bridgesList = map[uint64]ophosttypes.QueryBridgeResponse{}
+		for _, x := range all.Bridges {
+			e.bridgesList[x.BridgeId] = x
+		}
+	}
+	defer func() { e.ObsCount++ }()
 	for _, b := range tr.Bridges {
 		var cfgOv Ov = ol()
 		cfg, cerr := e.K.GetBridgeConfig(ctx, b)
@@ -226,6 +237,15 @@ func (e *L1Env) L1Obs(tr *L1Track, r ExecResult) Ov {
 				OB{cfg.Metadata}, OB{[]byte(cfg.BatchInfo.Submitter)}, onU(uint64(cfg.BatchInfo.ChainType))))
 		}
 		ns, _ := e.K.GetNextL1Sequence(ctx, b)
+		if q, err := e.Q.NextL1Sequence(ctx, &ophosttypes.QueryNextL1SequenceRequest{BridgeId: b}); err != nil {
+			e.queryDiff("NextL1Sequence(%d) fails: %v", b, err)
+		} else {
+			if q.NextL1Sequence != ns {
+				e.queryDiff("Query/NextL1Sequence(%d) = %d but the stored counter is %d", b, q.NextL1Sequence, ns)
+			}
+			ns = q.NextL1Sequence // the observation carries what the query answers
+		}
+		e.checkBridgeQueries(ctx, tr, b, cfg, cerr)
 		no, _ := e.K.GetNextOutputIndex(ctx, b)
 		var outs, prs, bts []Ov
 		resp, err := e.Q.OutputProposals(ctx, &ophosttypes.QueryOutputProposalsRequest{BridgeId: b})
@@ -234,6 +254,14 @@ func (e *L1Env) L1Obs(tr *L1Track, r ExecResult) Ov {
 		}
 		for _, op := range resp.OutputProposals {
 			outs = append(outs, outputOv(op.OutputIndex, op.OutputProposal))
+			stored, serr := e.K.GetOutputProposal(ctx, b, op.OutputIndex)
+			one, qerr := e.Q.OutputProposal(ctx, &ophosttypes.QueryOutputProposalRequest{BridgeId: b, OutputIndex: op.OutputIndex})
+			switch {
+			case serr != nil || qerr != nil:
+				e.queryDiff("output (%d, %d) is listed by Query/OutputProposals but the stored read / Query/OutputProposal fails: %v / %v", b, op.OutputIndex, serr, qerr)
+			case one.BridgeId != b || one.OutputIndex != op.OutputIndex || !one.OutputProposal.Equal(stored) || !op.OutputProposal.Equal(stored):
+				e.queryDiff("Query/OutputProposal(%d, %d) or the listed proposal differs from the stored output", b, op.OutputIndex)
+			}
 		}
 		var lf Ov = ol()
 		if cerr == nil {
@@ -404,3 +432,61 @@ func sortedPair(a, b []byte) []byte {
 }
 
 var _ = sort.Strings
+
+// ---- observation hygiene: queries vs keeper reads ----
+func (e *L1Env) queryDiff(format string, args ...interface{}) {
+	e.QueryDiffs = append(e.QueryDiffs, QueryDiff{Obs: e.ObsCount, What: fmt.Sprintf(format, args...)})
+}
+
+// checkBridgeQueries compares Query/Bridge, the entry of Query/Bridges, Query/TokenPairByL1Denom
+// and Query/TokenPairByL2Denom of one tracked bridge with the keeper reads and the documented
+// derivations (escrow address, L2 denom) computed in the harness
+func (e *L1Env) checkBridgeQueries(ctx sdk.Context, tr *L1Track, b uint64, cfg ophosttypes.BridgeConfig, cerr error) {
+	one, qerr := e.Q.Bridge(ctx, &ophosttypes.QueryBridgeRequest{BridgeId: b})
+	listed, inList := e.bridgesList[b]
+	want := escrowAddr(b).String()
+	if cerr != nil {
+		if qerr == nil {
+			e.queryDiff("Query/Bridge(%d) answers although no config is stored", b)
+		}
+		if inList && e.bridgesList != nil {
+			e.queryDiff("Query/Bridges lists bridge %d although no config is stored", b)
+		}
+	} else {
+		switch {
+		case qerr != nil:
+			e.queryDiff("Query/Bridge(%d) fails although a config is stored: %v", b, qerr)
+		case one.BridgeId != b || !one.BridgeConfig.Equal(cfg):
+			e.queryDiff("Query/Bridge(%d) differs from the stored config", b)
+		case one.BridgeAddr != want:
+			e.queryDiff("Query/Bridge(%d) announces the escrow address %s, the documented derivation gives %s", b, one.BridgeAddr, want)
+		}
+		if e.bridgesList != nil {
+			switch {
+			case !inList:
+				e.queryDiff("Query/Bridges does not list bridge %d although a config is stored", b)
+			case !listed.BridgeConfig.Equal(cfg):
+				e.queryDiff("the entry of bridge %d in Query/Bridges differs from the stored config", b)
+			case listed.BridgeAddr != want:
+				e.queryDiff("Query/Bridges announces the escrow address %s for bridge %d, the documented derivation gives %s", listed.BridgeAddr, b, want)
+			}
+		}
+	}
+	for _, d := range tr.Denoms {
+		l2 := indepDenom(b, d)
+		if b == 0 {
+			continue
+		}
+		if r, err := e.Q.TokenPairByL1Denom(ctx, &ophosttypes.QueryTokenPairByL1DenomRequest{BridgeId: b, L1Denom: d}); err != nil || r.TokenPair.L1Denom != d || r.TokenPair.L2Denom != l2 {
+			e.queryDiff("Query/TokenPairByL1Denom(%d, %s) is not the documented derivation %s", b, d, l2)
+		}
+		stored, serr := e.K.GetTokenPair(ctx, b, l2)
+		r, rerr := e.Q.TokenPairByL2Denom(ctx, &ophosttypes.QueryTokenPairByL2DenomRequest{BridgeId: b, L2Denom: l2})
+		switch {
+		case (serr == nil) != (rerr == nil):
+			e.queryDiff("Query/TokenPairByL2Denom(%d, %s): stored read err=%v, query err=%v", b, l2, serr, rerr)
+		case serr == nil && (r.TokenPair.L1Denom != stored || r.TokenPair.L2Denom != l2):
+			e.queryDiff("Query/TokenPairByL2Denom(%d, %s) = %s but the stored pair is %s", b, l2, r.TokenPair.L1Denom, stored)
+		}
+	}
+}
